@@ -280,15 +280,13 @@ func runStress(e *env, c stCase) (res stResult) {
 				continue
 			}
 			g := got[id]
-			i := 0
 			var all [][]string
 			for _, sb := range chain {
 				all = append(all, sb.emitted)
-				for k := 0; k < len(sb.emitted) && i < len(g) && g[i] == sb.emitted[k]; k++ {
-					i++
-				}
 			}
-			if i != len(g) {
+			// every operation's frames are a prefix of its events, in order; the frames of an operation that is being
+			// replaced and of the one replacing it may interleave (the old one is stopped asynchronously)
+			if !isShuffleOfPrefixes(g, all) {
 				res.BadFrames = append(res.BadFrames, fmt.Sprintf("c%d/%s: frames %v are not made of prefixes of the events %v", ci, id, g, all))
 			}
 		}
@@ -340,4 +338,32 @@ func cmdStressChild(path string, from, to int) {
 	}
 	fmt.Fprintf(out, "DONE\n")
 	out.Flush()
+}
+
+// isShuffleOfPrefixes: can got be split into subsequences, one per list, each a prefix of its list?
+func isShuffleOfPrefixes(got []string, lists [][]string) bool {
+	pos := make([]int, len(lists))
+	var rec func(i int) bool
+	seen := map[string]bool{}
+	rec = func(i int) bool {
+		if i == len(got) {
+			return true
+		}
+		key := fmt.Sprint(i, pos)
+		if seen[key] {
+			return false
+		}
+		seen[key] = true
+		for k, l := range lists {
+			if pos[k] < len(l) && l[pos[k]] == got[i] {
+				pos[k]++
+				if rec(i + 1) {
+					return true
+				}
+				pos[k]--
+			}
+		}
+		return false
+	}
+	return rec(0)
 }
